@@ -764,6 +764,12 @@ func (f *ordFn) bodyProblems(body *ast.BlockStmt, key, val types.Object) []strin
 					if core.IsErrorType(o.Type()) {
 						continue
 					}
+					// a search flag: `if found = <cond>; found { break }` (or the test right after the assignment):
+					// the loop is left as soon as the flag is raised, so at the end it says "some element satisfies
+					// cond", whatever the order
+					if core.IsBool(o.Type()) && f.isSearchFlag(body, x, o) {
+						continue
+					}
 					out = append(out, "outer variable "+lx.Name+" is overwritten with an iteration-dependent value at "+c.P.Pos(x.Pos())+" (last writer wins)")
 				case *ast.IndexExpr:
 					if !core.IsMap(f.info.TypeOf(lx.X)) {
@@ -843,6 +849,34 @@ func (f *ordFn) bodyProblems(body *ast.BlockStmt, key, val types.Object) []strin
 		return true
 	})
 	return out
+}
+
+// isSearchFlag: the assignment to the bool flag is the init statement of `if flag { leave }`, or is immediately
+// followed by such an if, directly in the loop body.
+func (f *ordFn) isSearchFlag(body *ast.BlockStmt, as *ast.AssignStmt, flag types.Object) bool {
+	leaves := func(ifs *ast.IfStmt) bool {
+		if core.ObjOf(f.info, ifs.Cond) != flag || ifs.Else != nil || len(ifs.Body.List) == 0 {
+			return false
+		}
+		switch last := ifs.Body.List[len(ifs.Body.List)-1].(type) {
+		case *ast.BranchStmt:
+			return last.Tok == token.BREAK
+		case *ast.ReturnStmt:
+			return true
+		}
+		return false
+	}
+	for i, st := range body.List {
+		if ifs, ok := st.(*ast.IfStmt); ok && ifs.Init == ast.Stmt(as) && leaves(ifs) {
+			return true
+		}
+		if st == ast.Stmt(as) && i+1 < len(body.List) {
+			if ifs, ok := body.List[i+1].(*ast.IfStmt); ok && ifs.Init == nil && leaves(ifs) {
+				return true
+			}
+		}
+	}
+	return false
 }
 
 func (f *ordFn) isErrReturn(r *ast.ReturnStmt) bool {
